@@ -240,14 +240,162 @@ def normalise_structures(chk, rel):
     mod.__dict__["_structures_unfolded"] = True
     for cls in [n for n in mod.tree.body if isinstance(n, ast.ClassDef)]:
         try:
-            changed = _unfold_class(cls, clone)
+            changed = _inline_simple_properties(cls, clone)
         except Exception:          # noqa: BLE001 - a normalisation must never stop a check: the rules then see the code as written
+            changed = True
+        try:
+            changed = _unfold_class(cls, clone) or changed
+        except Exception:          # noqa: BLE001
+            changed = True
+        try:
+            changed = _splice_starred_literals(cls) or changed
+        except Exception:          # noqa: BLE001
+            changed = True
+        try:
+            changed = _element_aliases(cls, clone) or changed
+        except Exception:          # noqa: BLE001
             changed = True
         if changed:
             ast.fix_missing_locations(cls)
             for n in ast.walk(cls):
                 for ch in ast.iter_child_nodes(n):
                     ch._parent = n
+
+
+def _inline_simple_properties(cls, clone):
+    """a read-only property whose body is side-effect free straight-line code - locals bound once to expressions, then one `return E` -
+    is evaluated anew at every access: `self.X` is written back as E (locals written out).  Properties with a setter / deleter, with
+    any other statement (lazy initialisation, conditionals), or whose name is also stored as a plain attribute are left alone."""
+    props = {}
+    for st in cls.body:
+        if not isinstance(st, ast.FunctionDef):
+            continue
+        decs = [src(d) for d in st.decorator_list]
+        if decs == ["property"] and [a.arg for a in st.args.args] == ["self"] and not st.args.vararg and not st.args.kwarg:
+            props.setdefault(st.name, []).append(st)
+        elif any(d.endswith((".setter", ".deleter", ".getter")) for d in decs):
+            props.setdefault(st.name, []).append(None)
+    simple = {}
+    for name, defs in props.items():
+        if len(defs) != 1 or defs[0] is None:
+            continue
+        body = [s_ for s_ in defs[0].body if not (isinstance(s_, ast.Expr) and isinstance(s_.value, ast.Constant))]
+        if not body or not isinstance(body[-1], ast.Return) or body[-1].value is None:
+            continue
+        env, ok = {}, True
+        for s_ in body[:-1]:
+            if isinstance(s_, ast.Assign) and len(s_.targets) == 1 and isinstance(s_.targets[0], ast.Name) and s_.targets[0].id not in env:
+                env[s_.targets[0].id] = _subst_names(clone(s_.value), env, clone)
+            else:
+                ok = False
+                break
+        if not ok:
+            continue
+        val = _subst_names(clone(body[-1].value), env, clone)
+        # no call that could have an effect other than producing a value is excluded here: evaluating E at the access point is what the
+        # property does; the expression must not read the property itself
+        if any(_self_attr(x) == name for x in ast.walk(val)) or any(isinstance(x, (ast.Lambda, ast.NamedExpr, ast.Yield, ast.Await)) for x in ast.walk(val)):
+            continue
+        simple[name] = (defs[0], val)
+    if not simple:
+        return False
+    # a name that is also stored as an instance attribute somewhere is not (only) the property
+    for n in ast.walk(cls):
+        if isinstance(n, ast.Attribute) and isinstance(n.ctx, (ast.Store, ast.Del)) and _self_attr(n) in simple:
+            simple.pop(_self_attr(n))
+    # properties that read other simple properties: written out in dependency order (a few rounds suffice)
+    for _ in range(3):
+        for name, (fn, val) in list(simple.items()):
+            simple[name] = (fn, _PropSub(simple, clone, skip=name).visit(val))
+    changed = False
+    for st in cls.body:
+        if isinstance(st, ast.FunctionDef) and not any(st is fn for fn, _ in simple.values()):
+            before = sum(1 for x in ast.walk(st) if _self_attr(x) in simple and isinstance(x.ctx, ast.Load))
+            if before:
+                st.body = [_PropSub(simple, clone).visit(s_) for s_ in st.body]
+                changed = True
+    return changed
+
+
+def _subst_names(e, env, clone):
+    class S(ast.NodeTransformer):
+        def visit_Name(self, n):
+            if isinstance(n.ctx, ast.Load) and n.id in env:
+                return ast.copy_location(clone(env[n.id]), n)
+            return n
+    return S().visit(e)
+
+
+class _PropSub(ast.NodeTransformer):
+    def __init__(self, simple, clone, skip=None):
+        self.simple, self.clone, self.skip = simple, clone, skip
+
+    def visit_Attribute(self, node):
+        a = _self_attr(node)
+        if a in self.simple and a != self.skip and isinstance(node.ctx, ast.Load):
+            new = self.clone(self.simple[a][1])
+            for x in ast.walk(new):
+                ast.copy_location(x, node)
+            return new
+        self.generic_visit(node)
+        return node
+
+
+def _splice_starred_literals(cls):
+    """`f(a, *(x, y), b)` / `f(*[x, y])` is `f(a, x, y, b)`: a starred tuple / list literal in a call is spliced into the arguments"""
+    changed = False
+    for n in ast.walk(cls):
+        if isinstance(n, ast.Call) and any(isinstance(a, ast.Starred) and isinstance(a.value, (ast.Tuple, ast.List))
+                                           and not any(isinstance(e, ast.Starred) for e in a.value.elts) for a in n.args):
+            out = []
+            for a in n.args:
+                if isinstance(a, ast.Starred) and isinstance(a.value, (ast.Tuple, ast.List)) and not any(isinstance(e, ast.Starred) for e in a.value.elts):
+                    out += list(a.value.elts)
+                else:
+                    out.append(a)
+            n.args = out
+            changed = True
+    return changed
+
+
+def _element_aliases(cls, clone):
+    """`for j, x in zip(range(...), self.A): body` / `for j, x in enumerate(self.A): body`: inside the body x IS `self.A[j]` (as long as the
+    body binds neither j nor x and does not rebind or resize self.A); the loads of x are written `self.A[j]`, the loop header stays as it
+    is.  The rules then see the element through the container and the counter, as in `for j in range(n): ... self.A[j]`."""
+    changed = False
+    for lp in [n for n in ast.walk(cls) if isinstance(n, ast.For)]:
+        it, tg = lp.iter, lp.target
+        if not (isinstance(tg, ast.Tuple) and len(tg.elts) == 2 and all(isinstance(x, ast.Name) for x in tg.elts)):
+            continue
+        cnt, el = tg.elts[0].id, tg.elts[1].id
+        seq = None
+        if isinstance(it, ast.Call) and isinstance(it.func, ast.Name) and not it.keywords:
+            if it.func.id == "enumerate" and len(it.args) == 1:
+                seq = it.args[0]
+            elif it.func.id == "zip" and len(it.args) == 2 and isinstance(it.args[0], ast.Call) and isinstance(it.args[0].func, ast.Name) \
+                    and it.args[0].func.id == "range" and len(it.args[0].args) == 1 and not it.args[0].keywords:
+                seq = it.args[1]
+        if seq is None or _self_attr(seq) is None:
+            continue
+        a = _self_attr(seq)
+        body_nodes = [n for st in lp.body for n in ast.walk(st)]
+        if any(isinstance(n, ast.Name) and isinstance(n.ctx, (ast.Store, ast.Del)) and n.id in (cnt, el) for n in body_nodes):
+            continue
+        if any(isinstance(n, ast.Attribute) and isinstance(n.ctx, (ast.Store, ast.Del)) and _self_attr(n) == a for n in body_nodes):
+            continue
+        if any(isinstance(n, ast.Call) and isinstance(n.func, ast.Attribute) and n.func.attr in _MUTATORS and _self_attr(n.func.value) == a for n in body_nodes):
+            continue
+        if not any(isinstance(n, ast.Name) and n.id == el and isinstance(n.ctx, ast.Load) for n in body_nodes):
+            continue
+
+        class A(ast.NodeTransformer):
+            def visit_Name(self, n):
+                if n.id == el and isinstance(n.ctx, ast.Load):
+                    return ast.copy_location(ast.Subscript(value=clone(seq), slice=ast.Name(id=cnt, ctx=ast.Load()), ctx=ast.Load()), n)
+                return n
+        lp.body = [A().visit(st) for st in lp.body]
+        changed = True
+    return changed
 
 
 def _unfold_class(cls, clone):
@@ -717,6 +865,136 @@ def entry_function(chk, rel, cls, m, receivers=()):
     return fn
 
 
+# ------------------------------------------------------------------ engine E rules with their assumptions checked
+def roles(chk, rel, func, call, formals, table, const_recv=None, callee=None):
+    """agree.check_roles, called only when what its verdicts assume is established:
+    * E2-arity VIOLATED ("argument list does not fit the signature") is a TypeError of the call only when every actual is written out:
+      an argument handed over by `*seq` / `**map` expansion that is not a literal (spliced before) has an unknown number of elements,
+      and a callee with *args / **kwargs accepts any number -> UNDECIDED;
+    * E2-argument-role VIOLATED ("actual of role X binds parameter Y") identifies a parameter's role with its NAME: it is decided only
+      for roles whose name is a parameter of the callee (then the actual demonstrably sits in another parameter's position); a role
+      name the signature no longer has (parameter renamed) is UNDECIDED."""
+    name = src(call.func)
+    if any(isinstance(a, ast.Starred) for a in call.args) or any(k.arg is None for k in call.keywords):
+        chk.ob("E2-argument-role", call, f"{name}(...)", None,
+               "arguments are handed over by * / ** expansion of a value that is not a literal: which parameter each of them binds is not followed",
+               file=rel, func=func)
+        return None
+    if callee is not None and (callee.args.vararg is not None or callee.args.kwarg is not None):
+        chk.ob("E2-argument-role", call, f"{name}(...)", None, "the callee takes *args / **kwargs: binding of the actuals not followed", file=rel, func=func)
+        return None
+    table2 = {}
+    actuals = [src(a) for a in call.args] + [src(k.value) for k in call.keywords]
+    for s_, want in table.items():
+        if want in formals:
+            table2[s_] = want
+        elif s_ in actuals:
+            chk.ob("E2-argument-role", call, f"{name}: role `{want}` <- {s_}", None,
+                   f"the callee has no parameter named `{want}` any more (parameters {formals}): roles are identified by parameter names, "
+                   "so the position of this actual cannot be judged", file=rel, func=func)
+    if const_recv:
+        for s_ in actuals:
+            if s_.startswith(const_recv + "."):
+                x = s_[len(const_recv) + 1:]
+                match = [f_ for f_ in formals if f_.lower() == x.lower()]
+                if match:
+                    table2[s_] = match[0]
+                else:
+                    chk.ob("E2-argument-role", call, f"{name}: constant `{x}` <- {s_}", None,
+                           f"the callee has no parameter named like the constant `{x}`: its position cannot be judged by name", file=rel, func=func)
+    return agree.check_roles(chk, rel, func, call, formals, table2, None)
+
+
+def wrapper_dispatch(chk, mod, wrapper, general):
+    """rule E1-dispatch of engine E (agree.check_wrapper_dispatch) in three-valued form.  HOLDS: the wrapper is one if/else on its flag
+    parameter, both arms are one call of the general routine with the same arguments except the evaluator arguments, which are the
+    cu_ / nu_ members of one pair (cu_ on the arm taken when the flag is true), every forwarded parameter binds the general routine's
+    parameter of the same name.  VIOLATED only for recognised wrong forms, each true of the code as written:
+      - the arms hand different non-evaluator arguments over (both families must get the same data);
+      - the two evaluators of one position are not the cu_/nu_ pair of one stem, or the cu_ member sits on the arm of the general basis;
+      - a forwarded parameter `p` binds a parameter of another name although the general routine HAS a parameter `p` (crossed
+        arguments; when it has none the parameter was renamed: names do not identify roles then -> UNDECIDED).
+    Any other shape (test that is not the flag or its negation, arm that is not a single call, */** arguments) is UNDECIDED."""
+    from ..agree import _stem
+    rel = mod.rel
+    fn, g = mod.func(wrapper), mod.func(general)
+    chk.functions.add(f"{rel}:{wrapper}")
+    ifs = [n for n in fn.body if isinstance(n, ast.If)]
+    if len(ifs) != 1:
+        raise AnalysisError(f"dispatch wrapper {wrapper} is not a single if/else")
+    node = ifs[0]
+    label = f"{wrapper} -> {general}"
+
+    def undecided(why):
+        chk.ob("E1-dispatch", node, label, None, why, file=rel, func=wrapper)
+    wparams = [a.arg for a in fn.args.args]
+    test, arms = node.test, (node.body, node.orelse)
+    if isinstance(test, ast.UnaryOp) and isinstance(test.op, ast.Not):
+        test, arms = test.operand, (node.orelse, node.body)
+    if isinstance(test, ast.Compare) and len(test.ops) == 1 and isinstance(test.ops[0], (ast.Is, ast.Eq)) and isinstance(test.comparators[0], ast.Constant) \
+            and test.comparators[0].value is True:
+        test = test.left
+    if not (isinstance(test, ast.Name) and test.id in wparams):
+        return undecided(f"the test `{src(node.test)}` is not the flag parameter of the wrapper (or its negation): which family runs when is not followed")
+    calls = []
+    for arm in arms:
+        cs = [s.value for s in arm if isinstance(s, (ast.Expr, ast.Return)) and isinstance(s.value, ast.Call)]
+        if len(cs) != 1 or len(arm) != 1:
+            return undecided("an arm of the dispatch is not a single call: not followed")
+        calls.append(cs[0])
+    gformals = [x.arg for x in g.args.args]
+    if any(src(c.func) != general for c in calls):
+        return undecided(f"the arms call `{src(calls[0].func)}` / `{src(calls[1].func)}`, not both `{general}`: not followed")
+    binds = [agree.bind_call(c, gformals) for c in calls]
+    if any(b is None for b in binds) or g.args.vararg is not None or g.args.kwarg is not None:
+        if all(not any(isinstance(a, ast.Starred) for a in c.args) and all(k.arg is not None for k in c.keywords) for c in calls) \
+                and g.args.vararg is None and g.args.kwarg is None:
+            chk.ob("E1-dispatch", node, label, False,
+                   f"a call of `{general}` does not fit its signature ({len(calls[0].args)}/{len(calls[1].args)} positional arguments, "
+                   f"{len(gformals)} parameters {gformals}): TypeError when this arm runs", file=rel, func=wrapper)
+            return
+        return undecided("arguments handed over by * / ** expansion: not followed")
+    a, b = binds
+    detail, unknown = [], []
+    nd = len(g.args.defaults)
+    optional = set(gformals[len(gformals) - nd:]) if nd else set()
+    if set(a) != set(b) or (set(gformals) - set(a)) - optional:
+        detail.append(f"the arms bind different / too few parameters: {sorted(a)} vs {sorted(b)} of {gformals}")
+    stems = {(_stem(n.id)[1]) for c in calls for n in ast.walk(c) if isinstance(n, ast.Name) and _stem(n.id)[0]}
+    for f in [f_ for f_ in gformals if f_ in a and f_ in b]:
+        x, y = a[f], b[f]
+        sx, sy = src(x), src(y)
+        if sx == sy:
+            if isinstance(x, ast.Name) and x.id in wparams and x.id != f:
+                if x.id in gformals:
+                    detail.append(f"`{sx}` is forwarded to parameter `{f}` although `{general}` has a parameter `{sx}`: crossed arguments")
+                else:
+                    unknown.append(f"`{sx}` is forwarded to parameter `{f}`: `{general}` has no parameter `{sx}` (renamed?), roles not decided by name")
+            continue
+        px, stx = _stem(sx)
+        py, sty = _stem(sy)
+        if px is None and py is None:
+            if isinstance(x, ast.Name) and isinstance(y, ast.Name):
+                detail.append(f"arms differ at parameter `{f}`: `{sx}` vs `{sy}` - the two spline families are handed different arguments of the "
+                              "wrapper for the same parameter")
+            else:
+                # family-specific derived data (e.g. a quantity read off each family's own knot layout): whether the two expressions
+                # denote the same quantity needs the layout of the data, which this rule does not model
+                unknown.append(f"arms differ at parameter `{f}`: `{sx}` vs `{sy}` are computed per family: whether both denote the same quantity "
+                               "is not decided")
+        elif not (px == "cu_" and py == "nu_" and stx == sty):
+            detail.append(f"arms differ at parameter `{f}`: `{sx}` (uniform-cubic arm) vs `{sy}` (general arm): expected the cu_/nu_ members of one evaluator")
+        elif f != stx:
+            if f in stems:
+                detail.append(f"the evaluator pair `{sx}`/`{sy}` binds parameter `{f}`, which is the name of another evaluator of this dispatch")
+            else:
+                unknown.append(f"the evaluator pair `{sx}`/`{sy}` binds parameter `{f}` (not named after the evaluator): role not decided by name")
+    ok = False if detail else (None if unknown else True)
+    chk.ob("E1-dispatch", node, label, ok,
+           "both families get the same arguments in the same order; the evaluator pair is matched cu_/nu_ of one stem; "
+           "the fast path is taken iff the basis is cubic uniform" if ok else "; ".join(detail + unknown), file=rel, func=wrapper)
+
+
 # ------------------------------------------------------------------ operators
 def parallel_gradient(chk):
     """ParallelGradient: tables built in __init__, looked up in parallel_gradient(phi_r, i, der)"""
@@ -940,8 +1218,12 @@ def out_array_axes(chk, a):
             tin, tout = a.node_tags.get(id(b[params[0]])), a.node_tags.get(id(b[params[2]]))
             known = I.is_arr(tin) and I.is_arr(tout) and all(w is not None and w[0] in ("G", "L") for w in tin[1] + tout[1])
             same = known and tuple(tin[1]) == tuple(tout[1])
+            # VIOLATED assumes that the callee pairs row k of its first parameter with row k of its third one: established by its own
+            # `assert <third>.shape == <first>.shape` (the reference contract); without it a mismatch of the axes is UNDECIDED
+            contract = any(isinstance(n_, ast.Assert) and isinstance(n_.test, ast.Compare) and len(n_.test.ops) == 1 and isinstance(n_.test.ops[0], ast.Eq)
+                           and {src(n_.test.left), src(n_.test.comparators[0])} == {f"{params[0]}.shape", f"{params[2]}.shape"} for n_ in pgf.body)
             chk.ob("C-window", c, f"parallel_gradient({src(b[params[0]])[:40]}, ..., {src(b[params[2]])[:30]}): axes in = axes out",
-                   (True if same else False) if known else None,
+                   (True if same else (False if contract else None)) if known else None,
                    f"input slice and output block are both {tname(tin)}" if same else
                    (f"the potential slice handed in is {tname(tin)} but the block of the table that receives the gradient is {tname(tout)}: "
                     "parallel_gradient writes row k of its result for row k of its input, so the rows of the table do not hold the gradient at "
@@ -968,14 +1250,59 @@ def gradient_out_param(chk):
     o = out[0]
     rets = [r for r in ast.walk(pgf) if isinstance(r, ast.Return) and r.value is not None]
     rebinds = [n for n in ast.walk(pgf) if isinstance(n, ast.Assign) and any(isinstance(t, ast.Name) and t.id == o for t in n.targets)]
-    bad = [r for r in rets if not (isinstance(r.value, ast.Name) and r.value.id == o)]
-    ok = not bad and not rebinds
-    why = (f"`{o}` is only updated in place and is what the function returns: the table row read by gridStepKeepGradient is the gradient "
-           "used by gridStep") if ok else \
-        (f"`{src(bad[0])}` returns a value that is not the output array `{o}`: the table row keeps a different (unscaled/partial) value, "
-         "so gridStepKeepGradient advects with another speed than gridStep" if bad else
-         f"`{src(rebinds[0])}` rebinds `{o}`: later updates no longer reach the caller's table row")
-    chk.ob("E2-gradient-out-param", bad[0] if bad else (rebinds[0] if rebinds else pgf), f"parallel_gradient leaves its result in `{o}`", ok, why,
+
+    def alias_of_o(e):
+        """o itself or a view of it (same memory): o, o[:], o[...], np.asarray(o), o.view(), o.reshape(...)"""
+        while True:
+            if isinstance(e, ast.Name):
+                return e.id == o
+            if isinstance(e, ast.Subscript) and (isinstance(e.slice, ast.Slice) and e.slice.lower is None and e.slice.upper is None and e.slice.step is None
+                                                 or (isinstance(e.slice, ast.Constant) and e.slice.value is Ellipsis)):
+                e = e.value
+            elif isinstance(e, ast.Call) and src(e.func) in ("np.asarray", "np.asanyarray") and len(e.args) == 1 and not e.keywords:
+                e = e.args[0]
+            elif isinstance(e, ast.Call) and isinstance(e.func, ast.Attribute) and e.func.attr in ("view", "reshape") and not e.keywords:
+                e = e.func.value
+            else:
+                return False
+
+    def computed_from_o(e):
+        """an arithmetic expression over o: a NEW array whose content differs from what is left in o"""
+        return isinstance(e, (ast.BinOp, ast.UnaryOp)) and any(isinstance(x, ast.Name) and x.id == o for x in ast.walk(e))
+    # what the caller does with the returned value: bound to a name that is read / used in an expression, or dropped
+    st_call = parent(calls[0])
+    result_used = not isinstance(st_call, ast.Expr)
+    other_rets = [r for r in rets if not alias_of_o(r.value)]
+    node = pgf
+    if not other_rets and not rebinds:
+        ok, why = True, (f"`{o}` is only updated in place and is what the function returns: the table row read by gridStepKeepGradient is the "
+                         "gradient used by gridStep")
+    elif rebinds:
+        node = rebinds[0]
+        v = rebinds[0].value
+        fresh = computed_from_o(v) or (isinstance(v, ast.Call) and src(v.func).split(".")[-1] in ("zeros", "empty", "zeros_like", "empty_like", "copy", "array"))
+        later = [n for n in ast.walk(pgf) if isinstance(n, (ast.AugAssign, ast.Assign)) and n.lineno > rebinds[0].lineno and
+                 src(n.target if isinstance(n, ast.AugAssign) else n.targets[0]).split("[")[0] == o]
+        # VIOLATED: the parameter is re-bound to a NEW array and updated afterwards (these updates cannot reach the caller's row)
+        ok = False if fresh and later and len(rebinds) == 1 and parent(rebinds[0]) is pgf else None
+        why = (f"`{src(rebinds[0])[:70]}` rebinds `{o}` to a new array and `{src(later[0])[:50]}` updates that array: the update does not reach the "
+               "caller's table row, which gridStepKeepGradient reads" if ok is False else
+               f"`{src(rebinds[0])[:70]}` rebinds `{o}`: whether later updates still reach the caller's table row is not decided")
+    elif all(computed_from_o(r.value) for r in other_rets) and result_used:
+        # VIOLATED: the function returns a new array computed from the output array AND the caller advects with the returned value while
+        # the table row (read later by gridStepKeepGradient) keeps what was left in place
+        node = other_rets[0]
+        ok, why = False, (f"`{src(other_rets[0])}` returns a new array computed from `{o}`, and gridStep uses the returned value "
+                          f"(`{src(st_call)[:60]}`): the table row keeps the value left in `{o}` (unscaled/partial), so gridStepKeepGradient, "
+                          "which reads the table, advects with another speed than gridStep")
+    elif not result_used:
+        ok, why = True, (f"gridStep drops the value returned by parallel_gradient and reads the table row `{src(b[o])}` like gridStepKeepGradient: "
+                         "both steps advect with what the call leaves in the row")
+    else:
+        node = other_rets[0]
+        ok, why = None, (f"`{src(other_rets[0])[:70]}` returns something else than the output array `{o}` and gridStep uses the returned value: "
+                         "whether it equals the content of the table row is not decided")
+    chk.ob("E2-gradient-out-param", node, f"parallel_gradient leaves its result in `{o}`", ok, why,
            file=U.ADV, func="ParallelGradient.parallel_gradient")
 
 
@@ -1040,6 +1367,19 @@ def row_always_written(chk, gs, call, unstructured):
         per_iter |= {x.id for x in ast.walk(lp.target) if isinstance(x, ast.Name)}
         per_iter |= {x.id for s_ in lp.body for x in ast.walk(s_) if isinstance(x, ast.Name) and isinstance(x.ctx, ast.Store)}
     varying = [n_ for n_, _ in conds if any(isinstance(x, ast.Name) and x.id in per_iter for x in ast.walk(n_.test))]
+    # VIOLATED assumes that the condition can really fail for some local radius: taken as established when it depends on DATA computed
+    # in the iteration (a local assigned in the loop body, e.g. a slice of the potential); a test on the loop counters alone
+    # (`if i < n:`) may hold for every radius -> UNDECIDED
+    targets = set()
+    for lp in loops:
+        targets |= {x.id for x in ast.walk(lp.target) if isinstance(x, ast.Name)}
+    data_dep = [n_ for n_ in varying if any(isinstance(x, ast.Name) and x.id in per_iter - targets for x in ast.walk(n_.test))
+                or any(isinstance(x, ast.Call) for x in ast.walk(n_.test))]
+    if varying and not data_dep:
+        chk.ob("E2-gradient-row-written", node, label, None,
+               f"the parallel_gradient call runs only when `{cond}`, a test on the loop counters: whether it can fail for a local radius is not "
+               "decided", file=U.ADV, func=q)
+        return
     if not varying:
         chk.ob("E2-gradient-row-written", node, label, None,
                f"the parallel_gradient call runs only when `{cond}`, a condition that does not change from one radius to the next: whether "
@@ -1080,6 +1420,9 @@ def coordinate_of_slice(a, fn, at, expr, sel, d):
             kind = "lidx"          # the same value selects the local slice
         if kind is None:
             return None, f"index space of `{src(expr.slice)}` in `{src(expr)}` not determined"
+        # VIOLATED-soundness: both sides are engine-C facts - the table is typed Local/Global along d (from its construction) and the
+        # subscript is typed lidx/gidx (or is the very value that selects the local slice through get1DSlice, whose selectors are local
+        # indices by the Grid API); an untyped subscript is UNDECIDED above
         if (kind == "lidx") == (w[0] == "L"):
             return True, None
         return False, (f"`{src(expr)}`: `{src(expr.value)}` holds the {'GLOBAL' if w[0] == 'G' else 'local'} {dn} coordinates but `{src(expr.slice)}` is the "
@@ -1146,6 +1489,8 @@ def index_agreement(chk, a, fn, rel, q):
             glo = [x for x in lst if x[1] == d and x[0] == "G"]
             if loc and glo:
                 dn = I.DIMNAMES.get(d, d)
+                # VIOLATED-soundness: relational - ONE value (same binding loop, or a local stored exactly once) is used as a local selector and as
+                # the subscript of an axis engine C typed Global for the same distributed dimension; re-assigned locals are skipped above
                 chk.ob("C-same-index", glo[0][2], f"{name}: {src(loc[0][2])[:40]} / {src(glo[0][2])[:40]}", False,
                        f"`{name}` selects the local block in `{src(loc[0][2])[:60]}` (a local index along {dn}) and subscripts the Global({dn}) axis in "
                        f"`{src(glo[0][2])[:60]}`: whenever {dn} is distributed the entry of another process's block is used", file=rel, func=q)
@@ -1308,6 +1653,21 @@ def local_extent_dependence(chk, a, fn, rel, q):
                     tainted.pop(x.id)
                 if id(x) in events:
                     events.pop(id(x))
+    # a locally reduced value handed to a function this analysis does not know (a helper that may reduce it over the communicator, a
+    # method of another object) may come back global: VIOLATED below assumes that no such call consumes it
+    laundered = []
+    for n in ast.walk(fn):
+        if isinstance(n, ast.Call) and id(n) not in events:
+            f_ = n.func
+            nm = f_.attr if isinstance(f_, ast.Attribute) else f_.id if isinstance(f_, ast.Name) else ""
+            isnp_ = isinstance(f_, ast.Attribute) and src(f_.value) in ("np", "numpy", "np.linalg", "numpy.linalg", "math")
+            builtin = isinstance(f_, ast.Name) and nm in ("abs", "float", "int", "bool", "max", "min", "sum", "len", "print", "range", "round", "my_print")
+            method_of_value = isinstance(f_, ast.Attribute) and not isnp_ and (nm in _REDUCERS or nm in _ELEMENTWISE or nm in ("reshape", "flatten", "ravel", "fill", "item"))
+            if isnp_ or builtin or method_of_value or nm in _MPI_REDUCTIONS:
+                continue
+            args_ = list(n.args) + [k.value for k in n.keywords]
+            if any((isinstance(x, ast.Name) and x.id in tainted) or id(x) in events for a_ in args_ for x in ast.walk(a_)):
+                laundered.append(n)
     sinks = []
     quiet = {"print", "my_print", "warn", "warning", "info", "debug", "log", "write", "flush"}
 
@@ -1349,10 +1709,25 @@ def local_extent_dependence(chk, a, fn, rel, q):
         seen.add(key)
         reds = "; ".join(f"`{src(c)[:70]}` reduces over the local block of {', '.join(I.DIMNAMES.get(d, str(d)) for d in sorted(dims))} "
                          f"(operand `{src(op)[:50]}`)" for c, dims, op in got)
-        chk.ob("C-local-extent", node, src(got[0][0])[:80], False,
+        verdict, extra = False, ""
+        if laundered:
+            verdict, extra = None, (f" - not decided: the reduced value is handed to `{src(laundered[0])[:60]}`, which this analysis does not follow "
+                                    "(it may reduce over the communicator)")
+        elif isinstance(node, (ast.Assign, ast.AugAssign)):
+            # a store is a sink only when the array written is field data (typed by engine C as a block / slice of a grid); a work
+            # array or an attribute may be reduced over the communicator elsewhere
+            tg_ = node.targets[0] if isinstance(node, ast.Assign) else node.target
+            tb_ = a.node_tags.get(id(tg_.value)) if isinstance(tg_, ast.Subscript) else None
+            reduced_later = any(isinstance(c_, ast.Call) and isinstance(c_.func, ast.Attribute) and c_.func.attr in _MPI_REDUCTIONS and
+                                any(src(x) == src(tg_.value) for a_ in c_.args for x in ast.walk(a_)) for c_ in ast.walk(fn)) if isinstance(tg_, ast.Subscript) else False
+            if reduced_later:
+                continue
+            if not (I.is_arr(tb_) and any(w_ is not None and w_[0] in ("G", "L") for w_ in tb_[1])):
+                verdict, extra = None, " - not decided: the array written is not typed as field data (it may be reduced over the communicator later)"
+        chk.ob("C-local-extent", node, src(got[0][0])[:80], verdict,
                f"{reds}: only the part of the distributed dimension held by this process enters, and no reduction over the communicator follows; "
                f"the result {what}, so what is computed for a slice depends on which other slices share its process - the global field differs "
-               "between process grids", file=rel, func=q)
+               "between process grids" + extra, file=rel, func=q)
 
 
 def radius_argument(chk, analyses):
@@ -1362,14 +1737,22 @@ def radius_argument(chk, analyses):
         n = 0
         for c in ast.walk(fn):
             if isinstance(c, ast.Call) and isinstance(c.func, ast.Attribute) and c.func.attr == "step" and src(c.func.value) == "self":
-                b = agree.bind_call(c, ["f", "dt", "c", "r"]) or {}
+                # the parameters of step as it is defined (the radius is the one named `r`: the reference name; another signature is
+                # not followed)
+                try:
+                    sformals = [x.arg for x in method_table(chk, U.ADV, "VParallelAdvection")["step"][1].args.args if x.arg != "self"]
+                except (KeyError, AnalysisError):
+                    sformals = ["f", "dt", "c", "r"]
+                b = agree.bind_call(c, sformals) or {}
                 r = b.get("r")
                 t = a.node_tags.get(id(r)) if r is not None else None
                 ok = t == ("coord", 0)
                 n += 1
                 why = "the radius handed to the boundary rule is the r coordinate of the line being advanced" if ok else \
                     f"the value handed to the step as radius is {tname(t) if t else 'unknown'}"
-                if t in (None, OTHER):
+                # VIOLATED only for a value the engine typed as something that is NOT a radius: the coordinate of another dimension or
+                # an index; anything else (untyped, a derived quantity) is UNDECIDED
+                if not ok and not (isinstance(t, tuple) and ((t[0] == "coord" and t[1] != 0) or t[0] in ("lidx", "gidx"))):
                     ok = None
                 elif ok:
                     # ... of the SAME line: the coordinate is taken at the index that selects the slice
@@ -1411,7 +1794,9 @@ def poloidal(chk):
         v = ps[0].value
         if isinstance(v, ast.ListComp) and isinstance(v.elt, ast.Call) and src(v.elt.func) == "Spline2D":
             okc = True
-        elif isinstance(v, ast.BinOp) and isinstance(v.op, ast.Mult):
+        elif isinstance(v, ast.BinOp) and isinstance(v.op, ast.Mult) and (isinstance(v.left, ast.List) or isinstance(v.right, ast.List)) \
+                and any(isinstance(x, ast.Call) and src(x.func) == "Spline2D" for side in (v.left, v.right) if isinstance(side, ast.List) for x in side.elts):
+            # recognised wrong form: `[Spline2D(...)] * n` is a list of n references to ONE object
             bad = (f"`{src(v)[:70]}` repeats ONE spline object for every z plane: the plane interpolated last overwrites all "
                    "others, so a later gridStep_SplinesUnchanged advects every plane with the last plane's potential")
     chk.pat("C-cache-distinct", ps[0] if ps else init, "self._phiSplines = [Spline2D(...) for each z plane]", okc,
@@ -1447,7 +1832,11 @@ def poloidal(chk):
             if not (isinstance(c, ast.Call) and isinstance(c.func, ast.Attribute) and c.func.attr == "step" and src(c.func.value) == "self"):
                 continue
             nstep += 1
-            b = agree.bind_call(c, ["f", "dt", "phi", "v"]) or {}
+            try:
+                pformals = [x.arg for x in method_table(chk, U.ADV, "PoloidalAdvection")["step"][1].args.args if x.arg != "self"]
+            except (KeyError, AnalysisError):
+                pformals = ["f", "dt", "phi", "v"]
+            b = agree.bind_call(c, pformals) or {}
             vt = an.node_tags.get(id(b["v"])) if "v" in b else None
             problems, bad = [], []
             if vt == ("coord", 3):
@@ -1472,6 +1861,8 @@ def poloidal(chk):
                                f"slice is the z plane `{src(zsel)}`: planes are advected with the potential of another plane")
                 elif src(ph.slice) != src(zsel) and _binding_loop(c, ph.slice) is not _binding_loop(c, zsel):
                     problems.append(f"`{src(ph.slice)}` and `{src(zsel)}` are not bound by the same loop: same plane not established")
+            # VIOLATED-soundness: `bad` only holds engine-typed facts (velocity argument typed as the coordinate of another dimension; spline
+            # selected by an index typed along another dimension than z); anything untyped / not recognised is in `problems` (UNDECIDED)
             okc = False if bad else (None if problems else True)
             chk.ob("C-coordinate-role", c, f"step(slice(i, j), dt, phiSplines[j], v) in {m}", okc,
                    "the velocity is the slice's own v coordinate and the potential spline is the one of the slice's own z plane"
@@ -1502,6 +1893,8 @@ def poloidal(chk):
     kinds = {t for _, t in tags}
     node = cache_tags.get("gridStep_SplinesUnchanged", [(None, None)])[0][0] or chk.func(U.ADV, "PoloidalAdvection.gridStep")
     if len(cache_tags) == 2 and "?" not in kinds and "('other',)" not in kinds:
+        # VIOLATED-soundness: relational (writer vs reader of the cache); decided only when every subscript of the cache in both methods was
+        # typed by engine C ('?' / other -> UNDECIDED branch below)
         ok = len(kinds) == 1
         chk.ob("C-cache-index-space", node, "self._phiSplines[...] in gridStep / gridStep_SplinesUnchanged", ok,
                f"the cache is written and read with {sorted(kinds)[0]}" if ok else
@@ -1607,6 +2000,8 @@ def density(chk):
                 bad = (known[0], x)
             stenc = [(an, ax, w) for an, ax, w in wins if w is not None and w[0] in ("S",)]
             if known:
+                # VIOLATED-soundness: relational - two arrays subscripted by the same bare loop variable of the kernel have engine-typed windows that
+                # differ (Local vs Global of a distributed dimension, or different dimensions); untyped arguments are left out of `known`
                 chk.ob("C-coindexed-axes", c, f"{kname}: loop index `{lv}` over " + ", ".join(f"{an}[{ax}]" for an, ax, _ in wins),
                        False if bad else (None if stenc and len(known) >= 1 and any(w[0] == "S" for _, _, w in wins) else True),
                        ("all arrays indexed by this loop variable cover the same index range: " +
@@ -1712,11 +2107,13 @@ def initialisers(chk):
                     d = t[1]
                 elif I.is_arr(t) and t[2] is not None and t[2][0] == "coord":
                     d = t[2][1]
+                # VIOLATED-soundness: the kernel parameter is identified by its (reference) NAME r/theta/z/vPar; the actual was typed by engine C as
+                # the coordinate of another dimension.  A renamed parameter is not in `want` (no obligation), an untyped actual is UNDECIDED
                 chk.ob("C-coordinate-role", c, f"{kname}: {f} <- {src(b[f])}", d == want[f] if d is not None else None,
                        f"parameter `{f}` receives the {I.DIMNAMES[want[f]]} coordinate(s) of the slice" if d == want[f] else
                        f"parameter `{f}` receives {tname(t)}", file=U.INITIALISER, func=fname)
         # surface axes = last two dims of the layout, in the kernel's (first, second) loop order
-        agree.check_roles(chk, U.INITIALISER, fname, c, formals, {}, const_recv="constants")
+        roles(chk, U.INITIALISER, fname, c, formals, {}, const_recv="constants", callee=kfn)
         co = coindexed_axes(kfn)
 
 
@@ -1819,6 +2216,12 @@ def callee_requirements(chk):
     return req
 
 
+# methods / attributes of Grid that neither change its layout nor its save state (the reference API, read off pygyro/model/grid.py)
+_GRID_READERS = {"nGlobalCoords", "eta_grid", "getCoords", "getEta", "getCoordVals", "getGlobalIdxVals", "getGlobalIndices", "get2DSlice",
+                 "get2DSpline", "getSpline", "get1DSlice", "get1DSpline", "getAllData", "getLayout", "currentLayout", "writeH5Dataset",
+                 "getBlockFromDict", "getBlockForFig", "getMin", "getMax", "setLayout", "saveGridValues", "freeGridSave", "restoreGridValues"}
+
+
 def driver_typestate(chk):
     """walk fullSimulation.main: current layout of distribFunc / phi / rho at every operator call"""
     O = orders(chk)
@@ -1832,25 +2235,63 @@ def driver_typestate(chk):
         nd = 4 if g == "distribFunc" else 3
         return O.get((name, nd))
 
+    # what the walk assumes: a call written in a statement of main runs when that statement runs.  Not so for the bodies of lambdas and
+    # nested functions (they run when CALLED): their calls are not events of the statement that defines them.  Grids they refer to
+    # (closures) may change layout whenever a locally defined callable is invoked: from such a call on, the layout of these grids is
+    # unknown (verdicts that need it become UNDECIDED)
+    deferred = set()
+    closure_grids = set()
+    local_callables = set()
+    for n in ast.walk(fn):
+        if n is not fn and isinstance(n, (ast.Lambda, ast.FunctionDef, ast.AsyncFunctionDef)):
+            if isinstance(n, ast.FunctionDef):
+                local_callables.add(n.name)
+            for x in ast.walk(n):
+                if x is not n:
+                    deferred.add(id(x))
+                if isinstance(x, ast.Name) and x.id in GRIDS:
+                    closure_grids.add(x.id)
+    for n in ast.walk(fn):
+        if isinstance(n, ast.Name) and isinstance(n.ctx, ast.Store) and id(n) not in deferred:
+            local_callables.add(n.id)
+
     def call_events(st, state):
-        calls = [c for c in ast.walk(st) if isinstance(c, ast.Call)]
+        calls = [c for c in ast.walk(st) if isinstance(c, ast.Call) and id(c) not in deferred]
         calls.sort(key=lambda c: (c.end_lineno, c.end_col_offset))
         for c in calls:
             f = c.func
+            if closure_grids and isinstance(f, ast.Name) and f.id in local_callables and f.id not in GRIDS:
+                for g_ in closure_grids:
+                    if g_ in state:
+                        state[g_] = {"cur": None, "saved": state[g_].get("saved"), "escaped": src(c)[:50], "unknown": src(c)[:50]}
             if isinstance(f, ast.Attribute) and isinstance(f.value, ast.Name) and f.value.id in GRIDS:
                 g = f.value.id
-                if f.attr == "setLayout" and c.args and isinstance(c.args[0], ast.Constant):
+                if f.attr == "setLayout" and not (c.args and isinstance(c.args[0], ast.Constant)):
+                    # a layout that is not a literal: the state of this grid is unknown from here on (the rules below say so)
+                    state[g] = {"cur": None, "saved": state.get(g, {}).get("saved"), "unknown": src(c)}
+                    chk.ob("S-known-layout", c, src(c), None, "the layout handed to setLayout is not a literal name: not followed", file=U.DRIVER,
+                           func="main", nontrivial=False)
+                elif f.attr == "setLayout":
                     state[g] = {"cur": c.args[0].value, "saved": state.get(g, {}).get("saved")}
                     events.append(("setLayout", g, c.args[0].value, c))
                     known = order_of(g, c.args[0].value) is not None
-                    chk.ob("S-known-layout", c, src(c), known, "layout name is one of the layouts the grid's manager was built with"
+                    # a name outside the literal dictionaries is a KeyError of the layout manager unless it was registered by other means
+                    # (a dictionary built by code): not a silent wrong result, and not decidable here -> UNDECIDED
+                    chk.ob("S-known-layout", c, src(c), True if known else None, "layout name is one of the layouts the grid's manager was built with"
                            if known else "layout name is not in the literal layout dictionaries", file=U.DRIVER, func="main", nontrivial=False)
                 elif f.attr == "saveGridValues":
                     state[g] = {"cur": state[g]["cur"], "saved": state[g]["cur"]}
                     events.append(("save", g, state[g]["cur"], c))
                 elif f.attr == "restoreGridValues":
                     sv = state[g].get("saved")
-                    chk.ob("S-restore-layout", c, src(c), sv is not None, f"restore brings `{g}` back to layout `{sv}`",
+                    # "restore without a save" is reported only when every statement before it was followed: the grid was never handed to
+                    # a function / method other than the known operators (which could have saved it), and no save sits in a construct the
+                    # walk does not enter (try / with / nested function)
+                    chk.ob("S-restore-layout", c, src(c), True if sv is not None else (False if not state[g].get("escaped") and not unfollowed else None),
+                           f"restore brings `{g}` back to layout `{sv}`" if sv is not None else
+                           (f"no saveGridValues of `{g}` precedes the restore on this path" +
+                            ("" if not state[g].get("escaped") and not unfollowed else
+                             f" - not decided: `{g}` was handed to `{state[g].get('escaped') or unfollowed[0]}`, which is not followed")),
                            file=U.DRIVER, func="main")
                     state[g] = {"cur": sv, "saved": None}
                     events.append(("restore", g, sv, c))
@@ -1858,6 +2299,10 @@ def driver_typestate(chk):
                     state[g] = {"cur": state[g]["cur"], "saved": None}
                 elif f.attr == "writeH5Dataset":
                     events.append(("write", g, state[g]["cur"], c))
+                elif f.attr not in _GRID_READERS and g in state:
+                    # a method of the grid this walk does not know (not one of the Grid API that leaves layout and save untouched) may
+                    # change the layout (a context manager `with g.inLayout(...)`, a helper that transposes): unknown from here on
+                    state[g] = {"cur": None, "saved": state[g].get("saved"), "escaped": src(c)[:50], "unknown": src(c)[:50]}
             # grid construction
             if isinstance(f, ast.Name) and f.id in ("setupCylindricalGrid", "setupFromFile"):
                 lay = [k.value.value for k in c.keywords if k.arg == "layout" and isinstance(k.value, ast.Constant)]
@@ -1871,33 +2316,74 @@ def driver_typestate(chk):
                         and isinstance(c.args[3], ast.Constant):
                     state[stn.targets[0].id] = {"cur": c.args[3].value, "saved": None}
             # operator calls taking grids
-            if isinstance(f, ast.Attribute) and any(isinstance(a, ast.Name) and a.id in GRIDS for a in list(c.args) + [k.value for k in c.keywords]):
+            passed = [a.id for a in list(c.args) + [k.value for k in c.keywords] if isinstance(a, ast.Name) and a.id in GRIDS]
+            if isinstance(f, ast.Attribute) and passed:
                 m = f.attr
                 if m in req or m in ("gridStep", "gridStepKeepGradient", "collect"):
                     recv = src(f.value)
                     check_operator_call(chk, c, recv, m, state, req, order_of)
                     events.append(("op", recv + "." + m, {g: state.get(g, {}).get("cur") for g in GRIDS}, c))
+                elif not (isinstance(f.value, ast.Name) and f.value.id in GRIDS):
+                    for g_ in passed:
+                        if g_ in state:
+                            state[g_]["escaped"] = src(c)[:50]
+            elif isinstance(f, ast.Name) and passed and f.id not in ("setupCylindricalGrid", "setupFromFile", "Grid", "print", "my_print", "len", "id", "type"):
+                for g_ in passed:
+                    if g_ in state:
+                        state[g_]["escaped"] = src(c)[:50]
+
+    unfollowed = []
 
     def run_block(stmts, state):
         for st in stmts:
+            if isinstance(st, (ast.Try, ast.With)):
+                # entered as straight-line code (the body runs once); noted, because a handler / context manager may change the flow
+                if isinstance(st, ast.Try):
+                    unfollowed.append(f"try block at line {st.lineno}")
+                managers = []
+                for it_ in getattr(st, "items", []) or []:
+                    # the context expressions run on entry; what a context manager does on exit is not followed: a grid whose method
+                    # supplied the manager is in an unknown layout again after the block
+                    call_events(ast.Expr(value=it_.context_expr), state)
+                    for c_ in ast.walk(it_.context_expr):
+                        if isinstance(c_, ast.Call) and isinstance(c_.func, ast.Attribute) and isinstance(c_.func.value, ast.Name) and c_.func.value.id in GRIDS:
+                            managers.append((c_.func.value.id, src(c_)[:50]))
+                run_block(st.body, state)
+                for g_, txt_ in managers:
+                    if g_ in state:
+                        state[g_] = {"cur": None, "saved": state[g_].get("saved"), "escaped": txt_, "unknown": txt_}
+                for h in getattr(st, "handlers", []) or []:
+                    pass
+                run_block(getattr(st, "orelse", []) or [], state)
+                run_block(getattr(st, "finalbody", []) or [], state)
+                continue
             if isinstance(st, ast.If):
                 call_events(ast.Expr(value=st.test), state)
                 s1 = {k: dict(v) for k, v in state.items()}
                 s2 = {k: dict(v) for k, v in state.items()}
                 run_block(st.body, s1)
                 run_block(st.orelse, s2)
+                lay_of = lambda d: (d.get("cur"), d.get("saved")) if d else None
                 for g in set(s1) | set(s2):
-                    if s1.get(g) != s2.get(g):
-                        chk.ob("S-branch-agreement", st, f"if {src(st.test)[:60]}", False,
-                               f"`{g}` is in layout {s1.get(g)} after one arm and {s2.get(g)} after the other", file=U.DRIVER, func="main")
+                    if lay_of(s1.get(g)) != lay_of(s2.get(g)):
+                        # VIOLATED: both arms were followed and leave the grid in two different literal layouts; a grid created in one
+                        # arm only, or a layout that is not a literal, is not a disagreement that can be decided
+                        known2 = all(d is not None and d.get("cur") is not None for d in (s1.get(g), s2.get(g)))
+                        chk.ob("S-branch-agreement", st, f"if {src(st.test)[:60]}", False if known2 else None,
+                               f"`{g}` is in layout {lay_of(s1.get(g))} after one arm and {lay_of(s2.get(g))} after the other", file=U.DRIVER, func="main")
+                    elif g in s1 and g in s2 and s2[g].get("escaped") and not s1[g].get("escaped"):
+                        s1[g]["escaped"] = s2[g]["escaped"]
                 state.clear()
                 state.update(s1)
             elif isinstance(st, (ast.While, ast.For)):
                 before = {k: dict(v) for k, v in state.items()}
                 run_block(st.body, state)
                 # loop invariant: layouts at the end of the body equal those at its start
+                lay_of = lambda d: (d.get("cur"), d.get("saved")) if d else None
                 for g in GRIDS:
-                    ok = before.get(g) == state.get(g)
+                    ok = lay_of(before.get(g)) == lay_of(state.get(g))
+                    if not ok and (state.get(g, {}).get("cur") is None or before.get(g, {}).get("cur") is None):
+                        ok = None        # a layout set from a non-literal name inside the loop: not followed
                     chk.ob("S-loop-invariant", st, f"time loop: layout of {g}", ok,
                            f"`{g}` is in the same layout ({state.get(g, {}).get('cur')}) at the start and at the end of an iteration"
                            if ok else f"`{g}` starts an iteration in {before.get(g)} but ends it in {state.get(g)}",
@@ -1972,6 +2458,8 @@ def check_operator_call(chk, c, recv, m, state, req, order_of):
             # both grids in the same layout: the solver loops over rho's modes and writes phi's slices
             if len(c.args) >= 2 and all(isinstance(a, ast.Name) and a.id in state for a in c.args[:2]):
                 same = state[c.args[0].id]["cur"] == state[c.args[1].id]["cur"]
+                if state[c.args[0].id]["cur"] is None or state[c.args[1].id]["cur"] is None:
+                    same = None          # a layout set from a non-literal name: not followed
                 chk.ob("S-operator-layout", c, label + " [same layout]", same,
                        "phi and rho are in the same layout" if same else
                        f"phi is in `{state[c.args[0].id]['cur']}` but rho in `{state[c.args[1].id]['cur']}`", file=U.DRIVER, func="main")
@@ -1987,6 +2475,10 @@ def check_operator_call(chk, c, recv, m, state, req, order_of):
             if isinstance(a, ast.Name) and a.id in state:
                 cur = state[a.id]["cur"]
                 ok = want == {cur}
+                if cur is None or not want:
+                    # the grid's layout is not known here / the layouts the collector was built for were not FOUND in its constructor
+                    # (not finding them is not a mismatch)
+                    ok = None
                 chk.ob("S-operator-layout", c, label + f" [{a.id}]", ok,
                        f"`{a.id}` is in `{cur}`, the layout its diagnostics were built for" if ok else
                        f"`{a.id}` is in `{cur}` but its diagnostics were built for {sorted(want)}", file=U.DRIVER, func="main")
@@ -1998,7 +2490,9 @@ def check_operator_call(chk, c, recv, m, state, req, order_of):
         cur = state[g]["cur"]
         o = order_of(g, cur)
         ok = o is not None and o_want is not None and tuple(o) == tuple(o_want)
-        chk.ob("S-operator-layout", c, label + f" [{g}]", ok if o_want is not None else None,
+        # VIOLATED needs both sides known: the layout the grid is in (set by literal names on every path to here) and the layout the
+        # operator asserts; a layout name whose axis order is not in the literal dictionaries is not followed
+        chk.ob("S-operator-layout", c, label + f" [{g}]", ok if (o_want is not None and cur is not None and o is not None) else None,
                f"`{g}` is in layout `{cur}` = {o}, as the operator requires" if ok else
                f"`{g}` is in layout `{cur}` = {o} but the operator requires {o_want}", file=U.DRIVER, func="main")
 
@@ -2047,7 +2541,9 @@ def run(chk):
     # regimes tile [0, nz) (shared with C13)
     from .C13 import regimes as _regimes
     _regimes(chk)
-    chk.floor("C-window", 30)
-    chk.floor("C-sort", 6)
-    chk.floor("S-operator-layout", 18)
+    # floors: low enough that merged loops / consolidated call sites / a table-driven driver do not trip them (a floor is a guard
+    # against a rule that matches nothing, not a count of today's sites)
+    chk.floor("C-window", 20)
+    chk.floor("C-sort", 3)
+    chk.floor("S-operator-layout", 10)
     chk.floor("C-slice-param", 4)
